@@ -107,6 +107,7 @@ Definition direct_open (cf : cfg) (c : creds) (tbl : list (N * idata)) (h : host
   | None => (Err EBADF, h)
   | Some d =>
       if negb (is_safe_inode (id_mode d)) then (Err EBADF, h)
+      else if c_ifh cf && negb (euid c =? 0) then (Err EPERM, h)
       else let of := clear (clear (N.lor (strip_direct cf (get_writeback_open_flags cf flags)) O_CLOEXEC) O_NOFOLLOW) O_CREAT in
            match sys_reopen c h (id_host d) of with
            | (Err e, h') => (Err e, h')
@@ -244,6 +245,8 @@ Definition direct_host (cf : cfg) (s : pstate) (q : req) : host :=
                     | Err _ => h'
                     | Ok st =>
                         if negb (is_safe_inode (looked_mode (p_inodes s) i st)) then h'
+                        (* the code's reopen: by file handle it fails for every non-root caller (known finding) *)
+                        else if c_ifh cf && negb (uid =? 0) then h'
                         else snd (sys_reopen (caller_creds_kp (kp_open cf ff) uid gid) h' i
                                     (clear (clear (N.lor (strip_direct cf (get_writeback_open_flags cf flags)) O_CLOEXEC) O_NOFOLLOW) O_CREAT))
                     end
@@ -293,6 +296,7 @@ Proof.
   intros cf s inode flags. unfold open_inode, direct_open.
   destruct (assoc inode (p_inodes s)) as [d|]; [|destruct s; reflexivity].
   destruct (negb (is_safe_inode (id_mode d))); [destruct s; reflexivity|].
+  destruct (c_ifh cf && negb (euid (p_creds s) =? 0)); [destruct s; reflexivity|].
   match goal with |- context [sys_reopen ?c ?h ?i ?f] => destruct (sys_reopen c h i f) as [[u|e] h'] end; reflexivity.
 Qed.
 
@@ -449,6 +453,7 @@ Lemma create_existing_host : forall cf s2 f flags ff uid gid rf s3 d', p_creds s
   with_killpriv (c_killpriv cf && has ff FOPEN_IN_KILL_SUIDGID) s2
      (fun s0 => with_creds uid gid s0 (fun s00 => open_inode cf s00 f flags)) = (rf, s3) ->
   p_host s3 = (if negb (is_safe_inode (id_mode d')) then p_host s2
+               else if c_ifh cf && negb (uid =? 0) then p_host s2
                else snd (sys_reopen (caller_creds_kp (kp_open cf ff) uid gid) (p_host s2) (id_host d')
                           (clear (clear (N.lor (strip_direct cf (get_writeback_open_flags cf flags)) O_CLOEXEC) O_NOFOLLOW) O_CREAT))).
 Proof.
@@ -460,6 +465,8 @@ Proof.
   rewrite open_inode_direct in Hb2. cbn [p_creds p_host with_creds_of with_host p_inodes] in Hb2.
   unfold direct_open in Hb2. rewrite Ha in Hb2. unfold kp_open.
   destruct (negb (is_safe_inode (id_mode d'))); [inversion Hb2; subst; reflexivity|].
+  cbn [euid caller_creds_kp] in Hb2.
+  destruct (c_ifh cf && negb (uid =? 0)); [inversion Hb2; subst; reflexivity|].
   match type of Hb2 with context [sys_reopen ?c ?h ?i ?fl] => destruct (sys_reopen c h i fl) as [[u|e] h3] end;
     cbn [fst snd] in Hb2; inversion Hb2; subst; reflexivity.
 Qed.
@@ -852,7 +859,7 @@ Proof.
   destruct (i_kind dv') as [|ents par dead| |] eqn:Hk; try discriminate.
   destruct (negb (may c dv' MAY_X)); [discriminate|].
   destruct (is_dot n || is_dotdot n) eqn:Hdots; [discriminate|].
-  destruct (NAME_MAX <? len n) eqn:Hlen; [discriminate|]. destruct dead; [discriminate|].
+  destruct dead; [discriminate|]. destruct (NAME_MAX <? len n) eqn:Hlen; [discriminate|].
   destruct (ent_find n ents) eqn:Hf; [discriminate|].
   destruct (may c dv' MAY_W); [|discriminate]. inversion Hck; subst dv'. clear Hck.
   unfold create_node in Hcn. rewrite alloc_spec in Hcn. inversion Hcn; subst i h'. clear Hcn.
@@ -982,3 +989,41 @@ Theorem pwrite_append_ignores_offset : forall c h i off off' w,
   sys_pwrite c h i true off w = sys_pwrite c h i true off' w.
 Proof. intros. unfold sys_pwrite. destruct (get h i) as [v|]; [|reflexivity]. destruct (i_kind v); reflexivity. Qed.
 
+
+(* ---- reopening an inode while the CALLER's credentials are installed (create() on an existing name).
+   FULL statement: it fails only if the direct open made with those credentials fails, with the same errno.  REFUTED under
+   inode_file_handles (open_by_handle_at needs CAP_DAC_READ_SEARCH: EPERM for every non-root caller, even for the owner of the
+   file); holds for root callers and without file handles. *)
+Definition reopen_call_flags (cf : cfg) (flags : N) : N :=
+  clear (clear (N.lor (strip_direct cf (get_writeback_open_flags cf flags)) O_CLOEXEC) O_NOFOLLOW) O_CREAT.
+Definition C05_reopen_as_caller_full : Prop :=
+  forall cf s inode flags d e, assoc inode (p_inodes s) = Some d -> is_safe_inode (id_mode d) = true ->
+    fst (open_inode cf s inode flags) = Err e ->
+    fst (sys_reopen (p_creds s) (p_host s) (id_host d) (reopen_call_flags cf flags)) = Err e.
+Definition KnownReopen (cf : cfg) (s : pstate) : Prop := c_ifh cf = true /\ euid (p_creds s) <> 0.
+
+Theorem reopen_as_caller_partial : forall cf s inode flags d e, ~ KnownReopen cf s ->
+  assoc inode (p_inodes s) = Some d -> is_safe_inode (id_mode d) = true ->
+  fst (open_inode cf s inode flags) = Err e ->
+  fst (sys_reopen (p_creds s) (p_host s) (id_host d) (reopen_call_flags cf flags)) = Err e.
+Proof.
+  intros cf s inode flags d e Hk Ha Hs H. unfold open_inode in H. rewrite Ha, Hs in H. cbn [negb] in H.
+  destruct (c_ifh cf && negb (euid (p_creds s) =? 0)) eqn:E.
+  - exfalso. apply andb_prop in E. destruct E as [E1 E2]. apply Hk. split; [exact E1|].
+    apply negb_true_iff in E2. apply N.eqb_neq. exact E2.
+  - unfold reopen_call_flags. destruct (sys_reopen _ _ _ _) as [[u|e0] h']; cbn in H |- *; [discriminate | inversion H; reflexivity].
+Qed.
+
+Definition ro_host : host :=
+  mkHost [(10, mkInode (KDir [([102], 11)] 10 false) 511 0 0 []); (11, mkInode (KReg [48; 49]) 420 1000 1000 [])] 12 [].
+Definition ro_cfg : cfg := mkCfg true false false false false true 2 true true.
+Definition ro_state : pstate :=
+  with_creds_of (r_p (snd (run ro_cfg (start ro_host 10) [SLookup (Slot 0) [102]]))) (mkCreds 1000 1000 false).
+
+Theorem reopen_as_caller_refuted : ~ C05_reopen_as_caller_full.
+Proof.
+  intros F. specialize (F ro_cfg ro_state 2 O_RDWR (mkIdata 11 33188 1) EPERM eq_refl eq_refl eq_refl).
+  vm_compute in F. discriminate F.
+Qed.
+Lemma ro_known : KnownReopen ro_cfg ro_state.
+Proof. split; [reflexivity | discriminate]. Qed.
